@@ -193,6 +193,10 @@ type EdgeQuery struct {
 	indexNumEdges      int
 	indexNumEdgesLimit int
 
+	// indexGeneration is the generation of the index that the cached edge
+	// count, covering and cells below were computed for.
+	indexGeneration uint64
+
 	// The distance beyond which we can safely ignore further candidate edges.
 	// (Candidates that are exactly at the limit are ignored; this is more
 	// efficient for UpdateMinDistance and should not affect clients since
@@ -422,6 +426,14 @@ func (e *EdgeQuery) findEdge(target distanceTarget, opts *queryOptions) EdgeQuer
 func (e *EdgeQuery) findEdgesInternal(target distanceTarget, opts *queryOptions) {
 	e.target = target
 	e.opts = opts
+
+	// If the index has changed since the last call (shapes added, Reset),
+	// what was cached about it (edge count, covering, cells) is stale.
+	e.index.maybeApplyUpdates()
+	if e.indexGeneration != e.index.generation {
+		e.Reset()
+		e.indexGeneration = e.index.generation
+	}
 
 	e.testedEdges = make(map[ShapeEdgeID]uint32)
 	e.distanceLimit = target.distance().fromChordAngle(opts.distanceLimit)
